@@ -198,7 +198,7 @@ func (ex *Exec) apiIntrinsic(name string, fn *ssa.Function, args []Value, fr *Fr
 	case "verifLeakCheck":
 		ex.leakCheck = args[0].(*Term).cv != 0
 		return nil, true
-	case "verifSpawn", "verifSchedBound", "verifSchedFreeBound", "verifSchedQuiet", "verifYield", "verifBlockUntil", "verifSchedEvent":
+	case "verifSpawn", "verifSchedBound", "verifSchedFreeBound", "verifSchedQuiet", "verifSettle", "verifYield", "verifBlockUntil", "verifSchedEvent":
 		return ex.schedAPI(name, args, fr, pos), true
 	}
 	return nil, false
